@@ -176,6 +176,23 @@ def vc_intersect(ctx):
         ctx.ok('intersection', body, 'insert exactly under {Eq}, value = the common counter', line=c.line, details=det)
 
 
+@rule('VC-WITHOUT', {
+    'C10': 'forget: clone_without(base) keeps exactly the entries strictly newer than base, like reset_remove',
+    'C04': 'the common-dots formula of merge uses it for "their dots we have not seen" / "our dots they have not seen"',
+    'C05': 'same for Map entry clocks',
+}, floor=1)
+def vc_without(ctx):
+    """VClock::clone_without(self, base) returns a copy of self with reset_remove(base) applied, on every path."""
+    from .merge import cexpr, leaf_param, fmt_c
+    facts = ctx.facts
+    body = ctx.inherent(VCLOCK, 'clone_without')
+    it = interp(facts, body)
+    e = cexpr(it.ret) if it.ret[0] != 'phi' else None
+    ok = e is not None and e == ('minus', ('leaf', ('param', 1)), ('leaf', ('param', 2)))
+    ctx.check(ok, 'clone_without', body, 'returns self − base (copy, then reset_remove) on every path',
+              'clone_without does not return a copy of self reduced by reset_remove(base) on every path (returns %s)' % fmt(it.ret, 4))
+
+
 @rule('VC-GLB', {
     'C10': 'glb is the pointwise minimum; a zero result must be dropped (no API call stores a zero counter)',
 }, floor=1)
